@@ -96,7 +96,7 @@ std::vector<Bytes> alias_encodings(const Pt &t) {
 Pt gen_prime_point() { U k = ref::sc_reduce(ref::u_from_le(gen_bytes(40))); if (ref::u_is_zero(k)) k = U(1); return ref::pt_mul(k, ref::ED_B()); }
 bool g_known_2L = false;     // known finding "ed25519-order-2L": P + (0,-1) is excluded from the ops that validate the order
 Bytes gen_ed_encoding(std::string &cls, bool validating = false) {
-    int k = *rc::gen::weightedElement<int>({ { 6, 0 }, { 4, 1 }, { 2, 2 }, { 2, 3 }, { 2, 4 }, { 2, 5 }, { 1, 6 }, { 1, 7 } });
+    int k = *rc::gen::weightedElement<int>({ { 6, 0 }, { 4, 1 }, { 2, 2 }, { 2, 3 }, { 2, 4 }, { 2, 5 }, { 1, 6 }, { 1, 7 }, { 2, 8 } });
     const auto &T = ref::torsion_points();
     switch (k) {
     case 0: cls = "prime-order"; return ref::pt_encode(gen_prime_point());
@@ -107,6 +107,10 @@ Bytes gen_ed_encoding(std::string &cls, bool validating = false) {
     case 5: { cls = "y>=p"; Bytes e = ref::u_to_le(ref::u_add(U((uint64_t) *rc::gen::inRange(0, 19)), ref::P25519()), 32); if (*rc::gen::inRange(0, 2)) e[31] |= 0x80; return e; }
     case 6: { cls = "small-y"; Bytes e = ref::u_to_le(U((uint64_t) *rc::gen::inRange(0, 64)), 32); if (*rc::gen::inRange(0, 2)) e[31] |= 0x80;
               if (g_known_2L && validating) { EncInfo i = classify(e); if (i.decodes && i.order_class == 102) { e = ref::u_to_le(U(4), 32); } }   // y=9, 17, .. have order 2L
+              return e; }
+    case 8: { cls = "single-byte-y"; Bytes e(32, 0); int pos = *rc::gen::weightedElement<int>({ { 5, 31 }, { 2, 30 }, { 1, 0 }, { 1, 15 }, { 1, 16 } }); if (*rc::gen::inRange(0, 4) == 0) pos = *rc::gen::inRange(0, 32);
+              e[(size_t) pos] = (uint8_t) *rc::gen::inRange(1, 256); if (*rc::gen::inRange(0, 3) == 0) e[0] |= 1;
+              if (g_known_2L && validating) { EncInfo i = classify(e); if (i.decodes && i.order_class == 102) e[(size_t) pos] ^= 0x02; i = classify(e); if (i.decodes && i.order_class == 102) e = ref::u_to_le(U(4), 32); }
               return e; }
     default: { cls = "prime-order-signflip"; Bytes e = ref::pt_encode(gen_prime_point()); e[31] ^= 0x80; return e; }   // -P: still prime order
     }
@@ -150,6 +154,8 @@ void explore_ed_sweep(Ctx &ctx) {
         U k = ref::sc_reduce(ref::u_from_le(r.bytes(40))); Pt P = ref::pt_mul(k, ref::ED_B());
         for (size_t t = 0; t < 8; t++) encs.push_back({ ref::pt_encode(ref::pt_add(P, T[t])), t ? "prime+torsion" + std::to_string(t) : "prime-order" });
     }
+    // every encoding whose only non-zero byte is the last one (y = k * 2^248, both signs): 24 of them are valid prime-order points
+    for (int k = 1; k < 256; k++) { Bytes e(32, 0); e[31] = (uint8_t) k; EncInfo i = classify(e); encs.push_back({ e, (i.decodes && i.order_class == 102) ? "prime+torsion4" : "top-byte-only" }); }
     bool known2L = ctx.is_known("ed25519-order-2L"); bool witness_done = false;
     for (auto &e : encs) {
         Bytes n = r.bytes(32), q = ref::pt_encode(ref::pt_mul(U(7), ref::ED_B()));
@@ -210,6 +216,29 @@ void explore_solved_sums(Ctx &ctx) {
                 EdCase m{ E_MULT_NOCLAMP, pt_encode(S), Bytes(), n, "solved", "", "solved" };
                 exec_case(ctx, m, run_ed, mix64(hash_bytes(enc.data(), 32), 13), true);
                 ctx.cls("solved-scalarmult:aimed");
+            }
+        }
+        // the same value used as the x coordinate of the result: y^2 = (1 + x^2) / (1 - d x^2)
+        {
+            U x = y, xx = fp_sq(x), yv;
+            if (u_is_zero(x) || !fp_sqrt(fp_mul(fp_add(U(1), xx), fp_inv(fp_sub(U(1), fp_mul(ED_D(), xx)))), yv)) { ctx.cls("solved-sum:x-candidate-not-on-curve"); continue; }
+            for (int which = 0; which < 2; which++) {
+                Pt R = Pt(x, which ? fp_neg(yv) : yv);
+                if (!pt_on_curve(R)) continue;
+                Bytes enc = pt_encode(R);
+                Pt P = pt_mul(sc_reduce(u_from_le(rr.bytes(40))), ED_B()), Q = pt_sub(R, P);
+                EdCase a{ E_ADD, pt_encode(P), pt_encode(Q), Bytes(), "solved-x", "solved-x", "" };
+                exec_case(ctx, a, run_ed, mix64(hash_bytes(enc.data(), 32), 21), true);
+                EdCase b{ E_SUB, pt_encode(pt_add(R, P)), pt_encode(P), Bytes(), "solved-x", "solved-x", "" };
+                exec_case(ctx, b, run_ed, mix64(hash_bytes(enc.data(), 32), 22), true);
+                ctx.cls("solved-sum:x-aimed");
+                if (pt_in_prime_subgroup(R) && !pt_is_identity(R)) {
+                    Bytes n = rr.bytes(32); n[31] &= 0x0f; n[0] |= 1;
+                    Pt S = pt_mul(sc_inv(sc_reduce(u_from_le(n))), R);
+                    EdCase m{ E_MULT_NOCLAMP, pt_encode(S), Bytes(), n, "solved-x", "", "solved-x" };
+                    exec_case(ctx, m, run_ed, mix64(hash_bytes(enc.data(), 32), 23), true);
+                    ctx.cls("solved-scalarmult:x-aimed");
+                }
             }
         }
     }
